@@ -45,6 +45,83 @@ var spsB, _ = base64.StdEncoding.DecodeString("Z2QAH6zZQFAFuhAAAAMAEAAAAwPI8YMZY
 var ppsB, _ = base64.StdEncoding.DecodeString("aO+8sA==")
 var ascB, _ = hex.DecodeString("121056E500")
 
+const sdp265 = `v=0
+o=- 0 0 IN IP4 127.0.0.1
+s=x
+c=IN IP4 127.0.0.1
+t=0 0
+m=video 0 RTP/AVP 96
+a=rtpmap:96 H265/90000
+a=fmtp:96 sprop-vps=QAEMAf//AWAAAAMAkAAAAwAAAwBdlZgJ; sprop-sps=QgEBAWAAAAMAkAAAAwAAAwBdoAKAgC0WWVmkkyuAQAAA+kAAF3AC; sprop-pps=RAHBcrRiQA==
+a=control:streamid=0
+m=audio 0 RTP/AVP 97
+a=rtpmap:97 MPEG4-GENERIC/44100/2
+a=fmtp:97 profile-level-id=1;mode=AAC-hbr;sizelength=13;indexlength=3;indexdeltalength=3; config=121056E500
+a=control:streamid=1
+`
+
+var vps5, _ = base64.StdEncoding.DecodeString("QAEMAf//AWAAAAMAkAAAAwAAAwBdlZgJ")
+var sps5, _ = base64.StdEncoding.DecodeString("QgEBAWAAAAMAkAAAAwAAAwBdoAKAgC0WWVmkkyuAQAAA+kAAF3AC")
+var pps5, _ = base64.StdEncoding.DecodeString("RAHBcrRiQA==")
+
+// unescape removes emulation-prevention bytes (00 00 03 -> 00 00).
+func unescape(b []byte) []byte {
+	var o []byte
+	z := 0
+	for _, x := range b {
+		if z >= 2 && x == 3 {
+			z = 0
+			continue
+		}
+		if x == 0 {
+			z++
+		} else {
+			z = 0
+		}
+		o = append(o, x)
+	}
+	return o
+}
+
+// hvccOK: HEVCDecoderConfigurationRecord (ISO/IEC 14496-15 8.3.3.1) built from this stream's parameter sets:
+// version 1, the 12 profile-tier-level bytes of the VPS, 4-byte NAL lengths, and VPS / SPS / PPS arrays holding
+// exactly the stream's NAL units.
+func hvccOK(r []byte) bool {
+	if len(r) < 23 || r[0] != 1 || r[21]&3 != 3 {
+		return false
+	}
+	ptl := unescape(vps5[2:])[4:16]
+	if !bytes.Equal(r[1:13], ptl) {
+		return false
+	}
+	n := int(r[22])
+	q := r[23:]
+	found := map[byte][]byte{}
+	for i := 0; i < n; i++ {
+		if len(q) < 3 {
+			return false
+		}
+		typ := q[0] & 0x3f
+		cnt := int(binary.BigEndian.Uint16(q[1:]))
+		q = q[3:]
+		for k := 0; k < cnt; k++ {
+			if len(q) < 2 {
+				return false
+			}
+			l := int(binary.BigEndian.Uint16(q))
+			if len(q) < 2+l {
+				return false
+			}
+			if _, dup := found[typ]; dup {
+				return false
+			}
+			found[typ] = q[2 : 2+l]
+			q = q[2+l:]
+		}
+	}
+	return len(q) == 0 && len(found) == 3 && bytes.Equal(found[32], vps5) && bytes.Equal(found[33], sps5) && bytes.Equal(found[34], pps5)
+}
+
 type flvCase struct {
 	Frames   []string `json:"frames"`
 	Base     string   `json:"base"`
@@ -52,6 +129,7 @@ type flvCase struct {
 	Size     string   `json:"size"`
 	CacheGop bool     `json:"cachegop"`
 	Join     int      `json:"join"`
+	Codec    string   `json:"codec"`
 }
 
 type collector struct {
@@ -109,7 +187,12 @@ func TestFlv(t *testing.T) {
 	for ci, c := range cases {
 		tid := ci + 1
 		config.VerifSet(false, c.CacheGop, 5, "")
-		st := media.NewStream(fmt.Sprintf("/c08/%d", tid), sdpAV)
+		h265 := c.Codec == "h265"
+		rawsdp, vcodec := sdpAV, byte(7)
+		if h265 {
+			rawsdp, vcodec = sdp265, 12
+		}
+		st := media.NewStream(fmt.Sprintf("/c08/%d", tid), rawsdp)
 		base := int64(0)
 		switch c.Base {
 		case "b24":
@@ -126,8 +209,14 @@ func TestFlv(t *testing.T) {
 			switch k {
 			case "key":
 				body[0] = 0x65
+				if h265 {
+					body[0] = 19 << 1 // IDR_W_RADL
+				}
 			case "non":
 				body[0] = 0x41
+				if h265 {
+					body[0] = 1 << 1 // TRAIL_R
+				}
 			default:
 				body[0] = 0x21
 			}
@@ -254,6 +343,9 @@ func TestFlv(t *testing.T) {
 					okc = q[0] == 1 && int(binary.BigEndian.Uint16(q[1:])) == len(ppsB) && bytes.Equal(q[3:3+len(ppsB)], ppsB)
 				}
 				ev["cfg_ok"] = okc && body[0] == 0x17
+				if h265 {
+					ev["cfg_ok"] = body[0] == 0x1c && body[2] == 0 && body[3] == 0 && body[4] == 0 && hvccOK(r)
+				}
 			case typ == 8 && len(body) >= 2 && body[0]>>4 == 10 && body[1] == 0:
 				ev["type"] = "ash"
 				ev["cfg_ok"] = bytes.Equal(body[2:], ascB)
@@ -273,7 +365,7 @@ func TestFlv(t *testing.T) {
 						ev["cts"], ev["wantcts"] = cts, s.ptsMs-s.dtsMs
 						ev["key"], ev["wantkey"] = body[0]>>4 == 1, s.kind == "key"
 						n := int(binary.BigEndian.Uint32(body[5:]))
-						ev["intact"] = s.kind != "aud" && body[0]&0x0f == 7 && body[1] == 1 && n == len(body)-9 && bytes.Equal(body[9:], s.payload)
+						ev["intact"] = s.kind != "aud" && body[0]&0x0f == vcodec && body[1] == 1 && n == len(body)-9 && bytes.Equal(body[9:], s.payload)
 					}
 				} else {
 					ev["type"] = "audio"
